@@ -284,6 +284,11 @@ func (w *World) SpecDefs() (string, error) {
 		if err != nil {
 			return err
 		}
+		// pure functions whose body contains a quantifier are kept opaque (function symbol + definitional axiom) so that
+		// equal arguments give equal values by congruence instead of by re-instantiating the body
+		if !sf.Rec && !sf.Uninterp && hasQuantifier(sf.Body) && len(sf.Params) > 0 {
+			sf.Rec = true
+		}
 		if sf.Rec || sf.Uninterp {
 			fmt.Fprintf(&decls, "(declare-fun sp_%s (%s) %s)\n", n, strings.Join(sorts, " "), rs)
 		}
@@ -366,6 +371,21 @@ func (w *World) SpecDefs() (string, error) {
 	}
 	w.specText = decls.String() + defs.String() + axioms.String()
 	return w.specText, nil
+}
+
+func hasQuantifier(e *Expr) bool {
+	if e == nil {
+		return false
+	}
+	if e.Op == "forall" || e.Op == "exists" {
+		return true
+	}
+	for _, a := range e.Args {
+		if hasQuantifier(a) {
+			return true
+		}
+	}
+	return false
 }
 
 // loopStmts returns the for/range statements of a function body in source pre-order, not descending into closures.
